@@ -5,8 +5,6 @@ import (
 	"sort"
 	"strings"
 
-	mapset "github.com/deckarep/golang-set/v2"
-
 	"github.com/karagenc/socket.io-go/adapter"
 	vx "github.com/karagenc/socket.io-go/internal/vexplore"
 	"github.com/karagenc/socket.io-go/internal/vsched"
@@ -38,16 +36,6 @@ var cMatrices = []struct {
 }
 
 type span struct{ pre, post int }
-
-// unsafeOptsOf builds the options with thread-unsafe sets: their iteration order is fixed (sorted) in
-// the instrumented build, while the thread-safe set's Each walks its map in Go's random order, which
-// would make executions irreproducible.
-func unsafeOptsOf(T, E int) *adapter.BroadcastOptions {
-	o := adapter.NewBroadcastOptions()
-	o.Rooms = mapset.NewThreadUnsafeSet[adapter.Room](roomsOf(T)...)
-	o.Except = mapset.NewThreadUnsafeSet[adapter.Room](roomsOf(E)...)
-	return o
-}
 
 // possibleStates over-approximates the membership states that may have been current at some moment
 // of the broadcast's interval [b0,b1], from the begin/end marks of the mutators: an operation that
@@ -139,7 +127,7 @@ func cScenario(mi, T, E int, ops []aop, bound int) *vx.Scenario {
 		mark := func(p *int) { logV.Do(func() { seq++; *p = seq }) }
 		vsched.GoQuiet("broadcast", func() {
 			mark(&b0)
-			a.Broadcast(evHeader(), []any{"ev"}, unsafeOptsOf(T, E))
+			a.Broadcast(evHeader(), []any{"ev"}, optsOf(T, E))
 			mark(&b1)
 		})
 		for k := range ops {
